@@ -40,6 +40,7 @@ ANCESTORS: Dict[str, Tuple[str, ...]] = {
     "mod:types.BuiltinFunctionType": ("mod:types.BuiltinFunctionType", "mod:types.BuiltinMethodType"),
     "mod:types.GeneratorType": ("mod:types.GeneratorType",),
     "class:User": ("class:User",),
+    "class:Handler": ("class:Handler",),  # a user class that defines __call__
     "class:MyList": ("class:MyList", "builtin:list"),
     "class:MyDict": ("class:MyDict", "builtin:dict"),
     "class:MyTuple": ("class:MyTuple", "builtin:tuple"),
@@ -208,6 +209,14 @@ class InferScenario:
             return R("id", of=K(identity(args[0])))
         if d == "frozenset" and len(args) == 1 and isinstance(args[0], K) and isinstance(args[0].v, frozenset):
             return args[0]
+        if d == "callable" and len(args) == 1:
+            a = args[0]
+            if isinstance(a, K):
+                return K(False)
+            if isinstance(a, R) and a.kind == "val":
+                anc = ANCESTORS.get(a.fields["cls"].name, ())
+                return K(any(x in ("builtin:type", "mod:types.FunctionType", "mod:types.MethodType", "mod:types.BuiltinFunctionType", "class:Handler") for x in anc))
+            return None
         if d == "issubclass" and len(args) == 2:
             return self._subclass(args[0], args[1])
         if d == "isinstance" and len(args) == 2:
@@ -387,7 +396,7 @@ GET_TYPE_CLASSES = [
     "builtin:type", "class:Meta", "mod:types.FunctionType", "mod:types.MethodType", "mod:types.BuiltinFunctionType",
     "mod:types.GeneratorType", "builtin:list", "builtin:set", "builtin:dict", "mod:collections.defaultdict",
     "builtin:tuple", "builtin:frozenset", "builtin:int", "builtin:bool", "builtin:str", "builtin:NoneType",
-    "class:User", "class:MyList", "class:MyDict", "class:MyTuple", "class:MySet", "class:MyStr", "class:OrderedDict",
+    "class:User", "class:Handler", "class:MyList", "class:MyDict", "class:MyTuple", "class:MySet", "class:MyStr", "class:OrderedDict",
 ]
 
 
